@@ -293,4 +293,73 @@ theorem fileRead_before_end (blocks : Nat → Bytes) (segs : List Seg) (hin : Se
         · have hpos' := hloc.pos; simp only; omega
       · left; rw [if_neg hfull]
 
+/-- what a handle is asked to do -/
+inductive FOp where
+  | read (n : Nat)
+  | seek (off : Nat)
+deriving Repr, DecidableEq
+
+/-- A handle's life: filehandle.Read / filehandle.Seek(off, SeekStart) calls in sequence, threading
+the handle's pointer; the results of the Read calls. -/
+def runFile (segRead : Seg → Nat → Nat → Bytes × Option Err) (segs : List Seg) :
+    Ptr → List FOp → Option (List (Bytes × Option Err))
+  | _, [] => some []
+  | p, .seek off :: rest => runFile segRead segs (fileSeek p off) rest
+  | p, .read n :: rest =>
+    match fileRead segRead segs p n with
+    | none => none
+    | some (d, e, p') => (runFile segRead segs p' rest).map ((d, e) :: ·)
+
+/-- The plain-file specification: the results of the Read calls, for a flat byte string `content` and
+a position `pos` that Seek sets and Read advances. A Read returns the bytes at the position —
+possibly fewer than asked (never none, unless nothing was asked or the position is at the end) —
+and reports EOF only when the request reaches beyond the end of the content, always when the
+position is at or beyond the end. -/
+def Follows (content : Bytes) : Nat → List FOp → List (Bytes × Option Err) → Prop
+  | _, [], rs => rs = []
+  | _, .seek off :: ops, rs => Follows content off ops rs
+  | _, .read _ :: _, [] => False
+  | pos, .read n :: ops, (d, e) :: rs =>
+    d = (content.drop pos).take d.length ∧ d.length ≤ n ∧
+    (d = [] → n = 0 ∨ content.length ≤ pos) ∧
+    (e = none ∨ (e = some .eof ∧ content.length ≤ pos + d.length ∧ content.length < pos + n + 1)) ∧
+    (content.length ≤ pos → e = some .eof) ∧
+    Follows content (pos + d.length) ops rs
+
+theorem runFile_follows (blocks : Nat → Bytes) (segs : List Seg) (hin : SegsIn blocks segs)
+    (hpos : SegsPos segs) (ops : List FOp) (p : Ptr) (hok : PtrOK segs p) :
+    ∃ rs, runFile (vRead blocks) segs p ops = some rs ∧ Follows (fileContent blocks segs) p.off ops rs := by
+  have hclen := fileContent_length blocks segs hin
+  induction ops generalizing p with
+  | nil => exact ⟨[], rfl, rfl⟩
+  | cons op rest ih =>
+    cases op with
+    | seek off =>
+      obtain ⟨rs, h1, h2⟩ := ih (fileSeek p off) (ptrOK_fileSeek segs p off hok)
+      refine ⟨rs, by simpa [runFile] using h1, ?_⟩
+      have hoff : (fileSeek p off).off = off := by
+        unfold fileSeek; split <;> simp_all
+      rw [hoff] at h2
+      simpa [Follows] using h2
+    | read n =>
+      by_cases hlt : p.off < fileSize segs
+      · obtain ⟨d, e, p', hr, hd, ⟨s, o, ho, _, hlen⟩, hoff, hok', herr⟩ :=
+          fileRead_before_end blocks segs hin hpos p hok n hlt
+        obtain ⟨rs, h1, h2⟩ := ih p' hok'
+        refine ⟨(d, e) :: rs, by simp [runFile, hr, h1], ?_⟩
+        rw [hoff] at h2
+        refine ⟨hd, by omega, ?_, ?_, by omega, h2⟩
+        · intro hnil
+          left
+          have : d.length = 0 := by rw [hnil]; rfl
+          omega
+        · rcases herr with h | ⟨h, h3, h4⟩
+          · left; exact h
+          · right; exact ⟨h, by omega, by omega⟩
+      · obtain ⟨p', hr, hoff, hok'⟩ := fileRead_at_end blocks segs p n (by omega)
+        obtain ⟨rs, h1, h2⟩ := ih p' hok'
+        refine ⟨([], some .eof) :: rs, by simp [runFile, hr, h1], ?_⟩
+        rw [hoff] at h2
+        refine ⟨by simp, by simp, fun _ => Or.inr (by omega), Or.inr ⟨rfl, by simp; omega, by omega⟩, fun _ => rfl, by simpa using h2⟩
+
 end ArvVerif.C03
